@@ -29,7 +29,7 @@ func TestC02(t *testing.T) {
 		}
 		return len(ref) >= 3 && (info.Priority || info.Extended)
 	}
-	o := lexgen.Opts{MaxModes: 2, ModeActs: true, Frags: true, Macros: true}
+	o := lexgen.Opts{MaxModes: 2, ModeActs: true, Frags: true, Macros: true, BigPct: 3}
 	lexcheck.RunCheck(run, o, 320, 5000, 30, classify, nil)
 	if run.Replay == "" && run.Violations() == 0 {
 		run.RequireClass("priority-exercised", 40)
